@@ -23,9 +23,11 @@ package bn256
 
 //@ func (*G1).Unmarshal property C09,C13
 //@   let A0 := arr(m)
+//@   ensures err == nil ==> ghost(g1v, e) == G1ENC(A0, offof(m))
+//@   ghostset g1v[e] := G1ENC(A0, offof(m))
 //@   ensures err == nil ==> len(m) >= 64 && canon(A0, m, 0) && canon(A0, m, 1) && sameslice(result0, m[64:])
 //@   heapnonnil
-//@   modifies everything
+//@   modifies e.p, *e.p, ghost(g1v, e)
 
 //@ func (*G1).UnmarshalCompressed property C09,C13
 //@   let A0 := arr(data)
@@ -51,3 +53,59 @@ package bn256
 //@   ensures err == nil ==> len(m) >= 384 && canon(A0, m, 0) && canon(A0, m, 1) && canon(A0, m, 2) && canon(A0, m, 3) && canon(A0, m, 4) && canon(A0, m, 5) && canon(A0, m, 6) && canon(A0, m, 7) && canon(A0, m, 8) && canon(A0, m, 9) && canon(A0, m, 10) && canon(A0, m, 11) && sameslice(result0, m[384:])
 //@   heapnonnil
 //@   modifies everything
+
+// ---- the group and pairing operations as ASSUMED abstract operations (ghost element values): used
+// by the SM9 protocol contracts in internal/sm9, never proved here (C09's algebra is not decided)
+//@ ghost g1v : Int
+//@ ghost g2v : Int
+//@ ghost gtv : Int
+//@ func Pair trusted
+//@   ensures result != nil && ghost(gtv, result) == PAIRING(ghost(g1v, g1), ghost(g2v, g2))
+//@   fresh result
+//@   modifies nothing
+//@ func (*GT).Add trusted
+//@   params a b
+//@   ensures sameobj(result, self) && result != nil && ghost(gtv, self) == GTMUL(old(ghost(gtv, a)), old(ghost(gtv, b)))
+//@   modifies *self, ghost(gtv, self)
+//@ func (*GT).Marshal trusted
+//@   ensures len(result) == 384 && GTENC(arr(result), offof(result)) == ghost(gtv, self)
+//@   fresh result
+//@   modifies nothing
+//@ func (*G1).ScalarMult trusted
+//@   params a scalar
+//@   ensures err == nil ==> sameobj(result0, self) && result0 != nil && ghost(g1v, self) == G1MUL(old(ghost(g1v, a)), BEV(arr(scalar), offof(scalar), len(scalar)))
+//@   ensures err != nil ==> result0 == nil
+//@   modifies *self, ghost(g1v, self)
+//@ func (*G1).MarshalUncompressed trusted
+//@   ensures len(result) == 65 && result[0] == 4 && G1ENC(arr(result), offof(result) + 1) == ghost(g1v, self)
+//@   fresh result
+//@   modifies nothing
+//@ func (*G1).IsOnCurve trusted
+//@   modifies nothing
+
+// ---- frames of the field primitives (assembly; assumed to write only their result operand)
+//@ func gfpNeg trusted
+//@   modifies *c
+//@ func gfpAdd trusted
+//@   modifies *c
+//@ func gfpDouble trusted
+//@   modifies *c
+//@ func gfpTriple trusted
+//@   modifies *c
+//@ func gfpSub trusted
+//@   modifies *c
+//@ func gfpMul trusted
+//@   modifies *c
+//@ func gfpSqr trusted
+//@   modifies *res
+//@ func gfpFromMont trusted
+//@   modifies *res
+//@ func gfpCopy trusted
+//@   modifies *res
+//@ func (*gfP).Equal trusted
+//@   ensures result == 0 || result == 1
+//@   modifies nothing
+//@ func (*gfP).Invert trusted
+//@   modifies *self
+//@ func (*gfP).Sqrt trusted
+//@   modifies *self
